@@ -131,3 +131,22 @@ claim("C04", EXPRJ,
       "TLC; gcc; MEM_LOOKUP_* stubbed with the environment's memory function; expressions the translator refuses, whose C does "
       "not compile, or whose helper refuses the operand width at run time count as 'not accepted'; divisions by zero are not run",
       "DESIGN.md 5/C04", "ExprJudge")
+
+claim("C09", EXPRJ,
+      "possible_values(e) is recorded for expressions with conditionals nested in operands, slices, compositions, memory pointers, "
+      "branches and conditions (shared conditions included); TLC evaluates e, every alternative's constraints and value under all "
+      "valuations (<= 9 identifier bits) or boundary+random ones and requires: some alternative is enabled, and every enabled "
+      "alternative has the concrete value of e.",
+      "TLC; Expr.tla reference; undefined constraints count as not enabled", "DESIGN.md 5/C09", "ExprJudge")
+claim("C10", EXPRJ,
+      "Every ModularIntervals operation (+ & | ^ * >> << a>> >>> <<< neg, modulo by a constant) on all pairs of single intervals and "
+      "sampled multi-interval sets at widths 1..3 (quick) / 1..4 (thorough): TLC enumerates every pair of members, applies BV.tla's "
+      "operator and checks the result lies in the computed set; expr_range on enumerated small expressions (all valuations) and on "
+      "random / mask-shaped expressions at 8..64 bits (boundary+random valuations): the value TLC computes must lie in the range.",
+      "TLC; BV/Expr reference; soundness (over-approximation) only, as the property states", "DESIGN.md 5/C10", "ExprJudge")
+claim("C11", EXPRJ,
+      "match_expr is run on all (expression, pattern) pairs of depth <= 1 over a grammar with commutative / non-commutative operators, "
+      "slices, memory reads, conditionals, 2- and 3-part compositions, 3-ary sums and two jokers, and on random deeper pairs derived "
+      "by abstraction + perturbation; TLC validates each reported match: substituting the bindings in the pattern gives the "
+      "expression up to the argument order of commutative operators, with a single binding per joker.",
+      "TLC; soundness of reported matches only", "DESIGN.md 5/C11", "ExprJudge")
